@@ -188,6 +188,21 @@ theorem mem_numberFrom {α : Type} (start : ℕ) (l : List α) (x : ℕ × α) (
   have := List.mem_range.mp hk
   exact ⟨by simp, by simpa using this, ha⟩
 
+/-- an entry of the numbered fan: id `start + k`, apex `l[0]`, the two CONSECUTIVE entries `l[k+1]`, `l[k+2]` -/
+theorem mem_numberFrom_fanTriangles {α : Type} (start : ℕ) (l : List α) (x : ℕ × (α × α × α))
+    (h : x ∈ numberFrom start (fanTriangles l)) :
+    ∃ k, x.1 = start + k ∧ l[0]? = some x.2.1 ∧ l[k + 1]? = some x.2.2.1 ∧ l[k + 2]? = some x.2.2.2 := by
+  obtain ⟨i, hi, e⟩ := List.mem_iff_getElem.mp h
+  cases l with
+  | nil => simp [numberFrom, fanTriangles] at hi
+  | cons a rest =>
+    simp only [numberFrom, fanTriangles, List.length_zipWith, List.length_range, List.length_tail] at hi
+    simp only [numberFrom, fanTriangles, List.getElem_zipWith, List.getElem_range, List.getElem_tail] at e
+    subst e
+    refine ⟨i, rfl, rfl, ?_, ?_⟩
+    · simp
+    · simp
+
 theorem numberFrom_length {α : Type} (start : ℕ) (l : List α) : (numberFrom start l).length = l.length := by
   simp [numberFrom]
 
